@@ -1,4 +1,4 @@
 """C08 -- result vectors are well-formed at every stopping point."""
 from props._common import run_solver_property
 def run(ctx):
-    return run_solver_property(ctx, "C08", codes=("C08",), extra_theorem_files=("Properties_Bounds.v", "Properties_C08_interior.v", "Properties_C01.v"), focus_mix=("bounds", "mixed", "bounds", "updates"))
+    return run_solver_property(ctx, "C08", codes=("C08",), extra_theorem_files=("Properties_Bounds.v", "Properties_C08_interior.v", "Properties_C08_outputs.v", "Properties_C01.v"), focus_mix=("bounds", "mixed", "bounds", "updates"))
